@@ -60,6 +60,40 @@ def prepare(repo):
     _CORPUS["snippets"] = snippets
 
 
+def extract_test_snippets(repo):
+    """QML documents embedded in the repo's own tests, with what the test expects of them:
+    -> [{"file", "body", "expects_error": bool, "mode": "reject"|"generate"|None}]"""
+    out = []
+    tdir = os.path.join(repo, "tests")
+    if not os.path.isdir(tdir):
+        return out
+    for f in sorted(os.listdir(tdir)):
+        if not f.endswith(".rs"):
+            continue
+        text = open(os.path.join(tdir, f), encoding="utf-8").read()
+        ms = list(re.finditer(r'r###"(.*?)"###', text, re.S))
+        for i, m in enumerate(ms):
+            body = dedent(m.group(1))
+            if not body.lstrip().startswith("import qmluic.QtWidgets"):
+                continue
+            head = text[max(0, m.start() - 60):m.start()]
+            tail = text[m.end():ms[i + 1].start() if i + 1 < len(ms) else len(text)]
+            # the tail up to the start of the next test function belongs to this snippet
+            nxt = tail.find("#[test]")
+            if nxt >= 0:
+                tail = tail[:nxt]
+            err = "unwrap_err()" in tail
+            mode = None
+            if "translate_str(" in head:
+                mode = "reject"
+            elif "DynamicBindingHandling::Generate" in tail:
+                mode = "generate"
+            elif "DynamicBindingHandling::Reject" in tail:
+                mode = "reject"
+            out.append({"file": f, "body": body, "expects_error": err, "mode": mode})
+    return out
+
+
 def dedent(data):
     n = 0
     while n < len(data) and data[n] in "\n ":
